@@ -5,6 +5,7 @@
  * is *armed* (the harness arms it exactly around one `jsonlogic_rs::apply`), it
  *   - records which of these sources were consulted (evidence, not a verdict), and
  *   - in the perturbing modes answers them differently:
+ *   JL_SHIM_ALWAYS=1 arms every thread from the start of the process.
  *       JL_SHIM_MODE=0  pass everything through (recording only)
  *       JL_SHIM_MODE=A  every environment variable asked for exists and is "1"; every clock reading is
  *                       one hour later than the previous one; random bytes are all zero; files open
@@ -34,6 +35,20 @@ static size_t elen = 0;
 static unsigned long total = 0;
 static long fake_clock_steps = 0;
 static int mode_cached = -1;
+
+static int always_cached = -1;
+
+/* JL_SHIM_ALWAYS=1: every thread is armed from the start (used for the `jsonlogic` command, which has
+   no harness around its one evaluation) */
+static int is_armed(void) {
+    if (armed) return 1;
+    if (always_cached < 0) {
+        char *(*real)(const char *) = (char *(*)(const char *))dlsym(RTLD_NEXT, "getenv");
+        const char *m = real ? real("JL_SHIM_ALWAYS") : NULL;
+        always_cached = (m && m[0] == '1') ? 1 : 0;
+    }
+    return always_cached;
+}
 
 static int mode(void) {
     if (mode_cached < 0) {
@@ -81,7 +96,7 @@ unsigned long jl_shim_take(char *buf, size_t n) {
 
 char *getenv(const char *name) {
     REAL(char *, getenv, const char *)
-    if (!armed || busy) return real_getenv ? real_getenv(name) : NULL;
+    if (!is_armed() || busy) return real_getenv ? real_getenv(name) : NULL;
     rec("getenv", name);
     switch (mode()) {
     case 1: return (char *)"1";
@@ -92,7 +107,7 @@ char *getenv(const char *name) {
 
 char *secure_getenv(const char *name) {
     REAL(char *, secure_getenv, const char *)
-    if (!armed || busy) return real_secure_getenv ? real_secure_getenv(name) : NULL;
+    if (!is_armed() || busy) return real_secure_getenv ? real_secure_getenv(name) : NULL;
     rec("secure_getenv", name);
     switch (mode()) {
     case 1: return (char *)"1";
@@ -104,7 +119,7 @@ char *secure_getenv(const char *name) {
 int clock_gettime(clockid_t id, struct timespec *ts) {
     REAL(int, clock_gettime, clockid_t, struct timespec *)
     int r = real_clock_gettime(id, ts);
-    if (!armed || busy) return r;
+    if (!is_armed() || busy) return r;
     /* CPU-time clocks are used by the harness's own watchdog arithmetic on other threads; only the
        wall / monotonic family is a "time of day" source */
     if (id == CLOCK_THREAD_CPUTIME_ID || id == CLOCK_PROCESS_CPUTIME_ID) return r;
@@ -124,7 +139,7 @@ int clock_gettime(clockid_t id, struct timespec *ts) {
 int gettimeofday(struct timeval *tv, void *tz) {
     REAL(int, gettimeofday, struct timeval *, void *)
     int r = real_gettimeofday(tv, tz);
-    if (!armed || busy) return r;
+    if (!is_armed() || busy) return r;
     rec("gettimeofday", "");
     if (r == 0 && tv) {
         if (mode() == 1) {
@@ -141,7 +156,7 @@ int gettimeofday(struct timeval *tv, void *tz) {
 time_t time(time_t *t) {
     REAL(time_t, time, time_t *)
     time_t r = real_time(NULL);
-    if (armed && !busy) {
+    if (is_armed() && !busy) {
         rec("time", "");
         if (mode() == 1) r += 3600 * __sync_add_and_fetch(&fake_clock_steps, 1);
         else if (mode() == 2) r = 0;
@@ -152,8 +167,8 @@ time_t time(time_t *t) {
 
 ssize_t getrandom(void *buf, size_t len, unsigned int flags) {
     REAL(ssize_t, getrandom, void *, size_t, unsigned int)
-    if (!armed || busy || mode() == 0) {
-        if (armed && !busy) rec("getrandom", "");
+    if (!is_armed() || busy || mode() == 0) {
+        if (is_armed() && !busy) rec("getrandom", "");
         return real_getrandom ? real_getrandom(buf, len, flags) : -1;
     }
     rec("getrandom", "");
@@ -163,8 +178,8 @@ ssize_t getrandom(void *buf, size_t len, unsigned int flags) {
 
 int getentropy(void *buf, size_t len) {
     REAL(int, getentropy, void *, size_t)
-    if (!armed || busy || mode() == 0) {
-        if (armed && !busy) rec("getentropy", "");
+    if (!is_armed() || busy || mode() == 0) {
+        if (is_armed() && !busy) rec("getentropy", "");
         return real_getentropy ? real_getentropy(buf, len) : -1;
     }
     rec("getentropy", "");
@@ -173,7 +188,7 @@ int getentropy(void *buf, size_t len) {
 }
 
 static int deny_read(const char *path, int flags) {
-    if (!armed || busy) return 0;
+    if (!is_armed() || busy) return 0;
     rec((flags & O_ACCMODE) == O_RDONLY ? "open-for-reading" : "open-for-writing", path);
     return mode() == 2 && (flags & O_ACCMODE) == O_RDONLY;
 }
